@@ -276,7 +276,8 @@ def buildOrig (a : Ast ν) : Except BErr (Dict ν) := buildWith a (a.size + 1) n
   above; `buildParts` / `buildWith` (no check: the unchanged tree, which recursed without bound) are kept, and
   `buildPartsS_ok` (Lemmas) shows that a successful checked build is a successful unchecked build with the same result,
   so that every statement about successful builds carries over.  The recursion is still on `fuel`; with the check the
-  default budget `Ast.size + 1` … see `C19_*` theorems for what is proved about `overflow`.
+  default budget `Ast.size + 1` is never exhausted (`C19_no_overflow`), and a file with unique names and no dangling
+  reference is refused exactly when its component graph is cyclic, with `.cycle` (`C19_cycle_iff`).
 -/
 
 def buildPartsS (a : Ast ν) : Nat → Bool → Memo ν → List ν → List (Member ν) → Except BErr (List Part × Memo ν)
